@@ -93,7 +93,7 @@ def _ip_rule(ctx, fn, repr_adt, sites_names, dst_guards, src_guards, exceptions=
             ctx.ok((fn, n, 'src'), sample=dict(fn=fn, site=n, guard='src filter'))
 
 
-@rule('R11.2', ['C11'], floor=10, clause='IP destination and source filters cut every path from process_ipv4 / process_ipv6 to upper-layer processing')
+@rule('R11.2', ['C11'], floor=12, clause='IP destination and source filters cut every path from process_ipv4 / process_ipv6 to upper-layer processing')
 def r11_2(ctx):
     """T1: process_icmpv4/igmp/udp/tcp and the proto-unreachable reply only via has_ip_addr |
     has_multicast_group | is_broadcast_v4 (on dst_addr) and via is_unicast_v4 | is_unspecified (on
@@ -103,7 +103,8 @@ def r11_2(ctx):
     _ip_rule(ctx, 'process_ipv4', V4R, ['process_icmpv4', 'process_igmp', 'process_udp', 'process_tcp', 'icmpv4_reply'],
              [(IFI, 'has_ip_addr'), (IFI, 'has_multicast_group'), (IFI, 'is_broadcast_v4')],
              [(IFI, 'is_unicast_v4'), ('__ext__', 'is_unspecified')])
-    _ip_rule(ctx, 'process_ipv6', V6R, ['process_nxt_hdr'],
+    # process_hopbyhop can answer with an ICMPv6 Parameter Problem: it is protocol processing like process_nxt_hdr
+    _ip_rule(ctx, 'process_ipv6', V6R, ['process_nxt_hdr', 'process_hopbyhop'],
              [(IFI, 'has_ip_addr'), (IFI, 'has_multicast_group'), ('__ext__', 'is_loopback')],
              [('__ext__', 'x_is_unicast')])
 
